@@ -155,6 +155,25 @@ func flatten(vs [][]byte) ([]byte, []uint32) {
 	return data, offsets
 }
 
+// window places the values in the middle of a larger buffer: the encoders
+// receive (buffer, offsets) where the offsets need not start at 0 nor end at
+// len(buffer) (this is what Page.Slice produces).
+func window(rng *rand.Rand, data []byte, offsets []uint32) ([]byte, []uint32) {
+	if rng.Intn(3) == 0 {
+		return data, offsets
+	}
+	pre := make([]byte, rng.Intn(9))
+	post := make([]byte, rng.Intn(9))
+	rng.Read(pre)
+	rng.Read(post)
+	buf := append(append(append([]byte{}, pre...), data...), post...)
+	offs := make([]uint32, len(offsets))
+	for i, o := range offsets {
+		offs[i] = o + uint32(len(pre))
+	}
+	return buf, offs
+}
+
 func unflatten(data []byte, offsets []uint32) [][]byte {
 	var out [][]byte
 	for i := 0; i+1 < len(offsets); i++ {
@@ -360,6 +379,7 @@ func checkInner(k *checker, rng *rand.Rand) {
 	case "plain_ba", "dlba", "dba":
 		vs := strsOf(cs)
 		data, offsets := flatten(vs)
+		data, offsets = window(rng, data, offsets)
 		var e encoding.Encoding
 		switch cs.Enc {
 		case "plain_ba":
